@@ -1,20 +1,22 @@
-"""Registry: property id -> list of harness descriptions."""
+"""Registry: property id -> list of harness descriptions.  Fragments live in lib/hreg/<ID>.py; each
+calls reg(pid, **harness) one or more times and defines META = dict(level=..., note=...)."""
+import importlib.util
+import os
 
 HARNESSES = {}
+META = {}
 
 
 def reg(pid, **kw):
     HARNESSES.setdefault(pid, []).append(kw)
 
 
-reg("C18",
-    name="C18_sched_unit", src="harness/C18_sched_unit.cpp", runtime=False,
-    anchor_files=["include/hgraph/runtime/node_scheduler.h"],
-    quick=dict(defs=dict(NOPS=3, KMAX=3), symx=dict(shards=16, **{"max-wall": 600})),
-    thorough=dict(defs=dict(NOPS=4, KMAX=4), symx=dict(shards=16, **{"max-wall": 3000, "shard-depth": 8})),
-    reach=["end", "accepted_future", "accepted_now_before_start", "ignored_past_or_now", "tag_replaced", "pop_existing_tag", "advance_consumes_due"],
-    bounds="NOPS scheduler operations from {schedule(abs), schedule(delta), un_schedule(tag), un_schedule(), pop_tag, reset, fire+advance, skip+advance, no-op}; "
-           "tags {none,'a','b'}; requested offsets symbolic in [-2,KMAX] around now; base time symbolic in [0,1e6] us after MIN_ST; started/not-started enumerated",
-    outside="more than NOPS operations; more than two tag names; wall-clock alarms (C17)",
-    assumptions=["NodeScheduler is driven directly over a NodeSchedulerState with graph == nullptr (the graph slot is covered by C18_sched_graph)"],
-    )
+_d = os.path.join(os.path.dirname(os.path.abspath(__file__)), "hreg")
+for _fn in sorted(os.listdir(_d)):
+    if _fn.endswith(".py") and not _fn.startswith("_"):
+        _spec = importlib.util.spec_from_file_location("hreg_" + _fn[:-3], os.path.join(_d, _fn))
+        _m = importlib.util.module_from_spec(_spec)
+        _m.reg = reg
+        _spec.loader.exec_module(_m)
+        if hasattr(_m, "META"):
+            META[_fn[:-3]] = _m.META
